@@ -1,10 +1,10 @@
 SPECIFICATION Spec
 CONSTANTS
-  Names = {"a", "b", "XLONG", "LONG", ""}
+  Names = {"a", "b", "XLONG", ""}
   BaseLens = {0, 2}
   Align = {}
   EndAlign = {}
-  MaxOps = 6
+  MaxOps = 7
   MaxFiles = 3
   Srcs = {"exact", "short", "long"}
   Calls = {"start", "append", "end", "add", "flush", "finalize"}
